@@ -15,7 +15,9 @@ import rulemodel
 import scen
 
 PROP = "C03"
-NAMES = ["foo", "bar", "src/a.c", "src/b.c", "out/x", "a/b/c", "README", ".hidden", "pkg/foo", "dst/foo", "dst/src/a.c"]
+NAMES = ["foo", "bar", "src/a.c", "src/b.c", "out/x", "a/b/c", "README", ".hidden", "pkg/foo", "dst/foo", "dst/src/a.c",
+         # siblings that share a prefix *string* with a directory used as IN prefix, and what is left when it is cut off
+         "srcfoo", "src2/a.c", "2/a.c", "outx", "a/bc", "dstfoo"]
 PATTERNS = ["*", "foo", "*.c", "src/*", "?ar", "[fb]*", "[!f]*", "[a-c]*", "a/b/*", "out/*", "nomatch", "src/a.c",
             "*o*", "dst/*", "pkg/*", "a.c", "b.c", "x", "c"]
 PREFIXES = ["src", "out", "a/b", "dst", "pkg", "dst/src"]   # normalised: no trailing slash
@@ -64,23 +66,61 @@ def link_from_states(name, states):
     return scen.mk_link(name, mats, prods, [], {}, None)
 
 
+def near_variants(p):
+    """paths a (correct or sloppy) prefix handling could turn p into: cut a directory prefix, cut the same
+    characters as a plain string, keep a leading slash, add a destination prefix with or without separator"""
+    out = {p}
+    for pre in PREFIXES:
+        if p.startswith(pre + "/"):
+            out.add(p[len(pre) + 1:])
+            out.add(p[len(pre):])
+        elif p.startswith(pre):
+            out.add(p[len(pre):])
+        out.add(pre + "/" + p)
+        out.add(pre + p)
+    return [x for x in out if x and not x.startswith("/")]
+
+
 def rand_case(rng):
     names = rng.sample(NAMES, rng.randrange(0, 7))
     states = {n: rng.choice(STATES) for n in names}
     item_link = link_from_states("item", states)
     refs = ["ref0", "ref1"][:rng.randrange(0, 3)]
     links = {"item": item_link}
+    derived = rng.random() < 0.5
     for r in refs:
         if rng.random() < 0.15:
             continue     # referenced step without a link
         m, p = {}, {}
-        for n in rng.sample(NAMES, rng.randrange(0, 6)):
-            tgt = rng.choice([m, p])
-            # equal digests with the item's material/product of the same (or prefix-shifted) name, or different
-            tgt[n] = dg(rng.choice([1, 2, 3, 4, 5, 6]))
+        if derived:
+            # the referenced step exposes near-variants of the item's own artifacts, mostly with equal digests:
+            # every way of getting the prefix arithmetic slightly wrong then changes what MATCH consumes
+            for src in (item_link["materials"], item_link["products"]):
+                for path, d in src.items():
+                    for v in rng.sample(near_variants(path), min(3, len(near_variants(path)))):
+                        tgt = rng.choice([m, p])
+                        tgt[v] = d if rng.random() < 0.8 else dg(6)
+        else:
+            for n in rng.sample(NAMES, rng.randrange(0, 6)):
+                tgt = rng.choice([m, p])
+                tgt[n] = dg(rng.choice([1, 2, 3, 4, 5, 6]))
         links[r] = scen.mk_link(r, m, p, [], {}, None)
-    mr = [rand_rule(rng, refs) for _ in range(rng.randrange(0, 6))]
-    pr = [rand_rule(rng, refs) for _ in range(rng.randrange(0, 6))]
+
+    def rules():
+        rl = [rand_rule(rng, refs) for _ in range(rng.randrange(0, 6))]
+        if derived and refs and rng.random() < 0.7:
+            # a MATCH followed by a rule that notices what was (not) consumed
+            mr = ["MATCH", rng.choice(["*", "*", "*.c", "foo", "*o*", "a.c", "?/*"])]
+            if rng.random() < 0.6:
+                mr += ["IN", rng.choice(PREFIXES)]
+            mr += ["WITH", rng.choice(["MATERIALS", "PRODUCTS"])]
+            if rng.random() < 0.4:
+                mr += ["IN", rng.choice(PREFIXES)]
+            mr += ["FROM", rng.choice(refs)]
+            tail = rng.choice([[["DISALLOW", "*"]], [["DISALLOW", rng.choice(PATTERNS)]], [["REQUIRE", rng.choice(names)]] if names else [], []])
+            rl = rl[:2] + [mr] + tail
+        return rl
+    mr, pr = rules(), rules()
     kind = rng.choice(["step", "step", "inspection"])
     if kind == "step":
         item = scen.mk_step("item", 1, [], [], mr, pr)
